@@ -353,15 +353,39 @@ def text_table_intrinsics():
         """numpy.loadtxt(list of lines, dtype=float[, ndmin]): whitespace-separated numbers; a single row (or column) is squeezed to one dimension unless ndmin asks otherwise"""
         from ..sym import ArrV
         src_ = a[0]
-        lines_ = [l for l in (ev.iterate(src_, None, None) if not isinstance(src_, TextBuffer) else src_.text.splitlines()) if isinstance(l, str) and l.strip()]
+        max_rows = k.get("max_rows")
+        if hasattr(src_, "nxt"):
+            # a cursor over the lines of an open file: with max_rows=n exactly n data lines are taken from it (blank lines are skipped and not counted), the rest stays unread
+            if max_rows is None:
+                raise AnalysisError("numpy.loadtxt on the open file without max_rows (it would read to the end of the file)")
+            n_ = int(as_sym(max_rows))
+            lines_ = []
+            while len(lines_) < n_:
+                try:
+                    l = src_.nxt()
+                except RaisedV:
+                    break
+                if l.strip():
+                    lines_.append(l)
+        else:
+            lines_ = [l for l in (ev.iterate(src_, None, None) if not isinstance(src_, TextBuffer) else src_.text.splitlines()) if isinstance(l, str) and l.strip()]
+            if max_rows is not None:
+                lines_ = lines_[:int(as_sym(max_rows))]
         if not _float_dtype_ok(k.get("dtype", a[1] if len(a) > 1 else None)):
             raise AnalysisError("numpy.loadtxt with a non-floating dtype")
-        for other in ("comments", "delimiter", "converters", "skiprows", "usecols", "unpack", "max_rows"):
+        for other in ("comments", "delimiter", "converters", "skiprows", "unpack"):
             if k.get(other) is not None and not (other == "unpack" and k.get(other) is False):
                 raise AnalysisError(f"numpy.loadtxt with {other}=")
         ndmin = k.get("ndmin", sp.Integer(0))
         ndmin = int(ndmin) if ndmin is not None else 0
         rows = [[lib_float(ev, [tok], {}, None, None) for tok in l.split()] for l in lines_]
+        usecols = k.get("usecols")
+        if usecols is not None:
+            cols_ = [int(as_sym(c_)) for c_ in (ev.iterate(usecols, None, None) if not is_sym(usecols) else [usecols])]
+            try:
+                rows = [[r[c_] for c_ in cols_] for r in rows]
+            except IndexError:
+                raise RaisedV("ValueError")
         if not rows or len({len(r) for r in rows}) != 1:
             raise RaisedV("ValueError")
         nr, nc = len(rows), len(rows[0])
@@ -435,7 +459,32 @@ def click_params(fdef):
     return out
 
 
-def fold_fillcmd(ctx, model):
+def pandas_python_parser_lookahead() -> int:
+    """lines pandas' python engine pulls from its source after the header before it parses anything: the `_next_line()` calls in PythonParser._get_index_name
+    of the INSTALLED pandas (the lines are kept in the parser's buffer, so they are gone from a handle the caller keeps reading)"""
+    import ast as _ast, importlib.util as _iu
+    spec = _iu.find_spec("pandas.io.parsers.python_parser")
+    if spec is None or not spec.origin:
+        raise AnalysisError("installed pandas python parser not found")
+    tree = _ast.parse(open(spec.origin).read())
+    for fn in _ast.walk(tree):
+        if isinstance(fn, _ast.FunctionDef) and fn.name == "_get_index_name":
+            n_ = sum(1 for c in _ast.walk(fn) if isinstance(c, _ast.Call) and isinstance(c.func, _ast.Attribute) and c.func.attr == "_next_line")
+            if n_ >= 1:
+                return n_
+    raise AnalysisError("PythonParser._get_index_name of the installed pandas does not have the expected shape")
+
+
+TABLE_ONE = """one volume only
+77.000000  1  12.500000
+V  c11  C12  Cij44  c2311
+1100.0  300.5  110.25  80.125  -3.5
+ lattice_a lattice_b lattice_c
+10.1 10.2 10.3
+"""
+
+
+def fold_fillcmd(ctx, model, table=None):
     """`cij fill` folded on reference table A with one marker per command-line option; what reaches fill_cij is bound to
     fill_cij's own signature, so positional, keyword and **kwargs forwarding are judged alike"""
     patch_lines()
@@ -451,9 +500,11 @@ def fold_fillcmd(ctx, model):
         def sym_getattr(self, ev, name, node, mod):
             return BoundLib(f"sio.{name}", self)
 
+    table = TABLE_A if table is None else table
+
     class InTable(str):
         """the table as parsed from the file (what is handed to fill_cij): compares equal to the marker 'TABLE'"""
-        cols = TABLE_A.splitlines()[2].split()
+        cols = table.splitlines()[2].split()
 
         def sym_getattr(self, ev, name, node, mod):
             if name == "copy":
@@ -484,7 +535,7 @@ def fold_fillcmd(ctx, model):
     class Filled:
         """the table fill_cij returns: the columns of the input table in their order (the volume column first), filled components appended"""
         def __init__(self, cols=None):
-            self.cols = list(cols) if cols is not None else TABLE_A.splitlines()[2].split() + ["c22", "c33"]
+            self.cols = list(cols) if cols is not None else table.splitlines()[2].split() + ["c22", "c33"]
 
         def sym_getattr(self, ev, name, node, mod):
             if name == "to_string":
@@ -520,11 +571,36 @@ def fold_fillcmd(ctx, model):
 
     def read_table(ev, a, k):
         src_ = a[0] if a else k.get("filepath_or_buffer")
-        cap.update(table_text=getattr(src_, "text", None), read_kw={kk: k.get(kk) for kk in ("header", "index_col", "sep", "delim_whitespace")})
-        kw_accept(k, "engine", lambda v: True)
+        nrows = k.get("nrows")
+        engine = k.get("engine")
+        if hasattr(src_, "nxt"):
+            # the parser is given the open file itself: what it takes from the handle is gone for whoever reads the handle afterwards.  The C engine (the default)
+            # fills a 256 KiB buffer - a static table is consumed whole; the python engine reads line by line but pulls `lookahead` lines after the header before
+            # it parses anything (installed source), so header + max(nrows, lookahead) lines are gone
+            if nrows is None or engine != "python":
+                taken = []
+                while True:
+                    try:
+                        taken.append(src_.nxt())
+                    except RaisedV:
+                        break
+            else:
+                want_ = 1 + max(int(as_sym(nrows)), pandas_python_parser_lookahead())
+                taken = []
+                while len(taken) < want_:
+                    try:
+                        taken.append(src_.nxt())
+                    except RaisedV:
+                        break
+            text_ = "".join(taken[:1 + int(as_sym(nrows))] if nrows is not None else taken)
+        else:
+            text_ = getattr(src_, "text", None)
+            if nrows is not None and isinstance(text_, str):
+                text_ = "".join(text_.splitlines(keepends=True)[:1 + int(as_sym(nrows))])
+        cap.update(table_text=text_, read_kw={kk: k.get(kk) for kk in ("header", "index_col", "sep", "delim_whitespace")})
         return InTable("TABLE")
 
-    intr = io_intrinsics({"in.dat": TABLE_A}, [])
+    intr = io_intrinsics({"in.dat": table}, [])
     intr.update({
         "sys.stdout.write": lambda ev, a, k: out.append(a[0]) or None,
         "io.StringIO": lambda ev, a, k: SIO(a[0] if a else ""), "sio.write": lambda ev, a, k: setattr(a[0], "text", a[0].text + a[1]), "sio.seek": lambda ev, a, k: cap.setdefault("seek", []).append(a[1]),
@@ -547,6 +623,21 @@ def fold_fillcmd(ctx, model):
 
 def r_fillcmd(ctx, model):
     ref = "cij.cli.fill:main"
+    # a table with one volume (N = 1) first: whatever reads ahead of the rows it needs shows there
+    for tag, tbl in (("one-volume", TABLE_ONE),):
+        f1, out1, cap1, _, _ = fold_fillcmd(ctx, model, tbl)
+        w1 = model.where(ref, f1)
+        if "raised" in cap1:
+            ctx.violation(f"fillcmd.raises.{tag}", w1, "cij fill completes on a well-formed table", f"raises {cap1['raised']}", f"the fill command raises {cap1['raised']} on a well-formed static table with one volume")
+            continue
+        ls = tbl.splitlines(keepends=True)
+        n1 = int(ls[1].split()[1])
+        text1 = "".join(x for x in out1 if isinstance(x, str))
+        want1 = ls[0] + ls[1] + "<FILLED TABLE>\n" + "".join(ls[3 + n1:])
+        ctx.check(text1 == want1 and cap1.get("table_text") == "".join(ls[2:3 + n1]), f"cij fill on a {tag} table: header lines + filled table + remainder (lattice block) unchanged", w1,
+                  expected=repr(want1)[:300], found=repr(text1)[:300] + f"; parsed {cap1.get('table_text')!r}"[:200],
+                  explanation="on a table with a single volume the fill command loses or repeats lines: the rest of the file (the lattice block and its header line) is not re-emitted as it was - "
+                              "a parser that is handed the open file takes more lines from it than the rows it returns", key=f"fillcmd.structure.{tag}")
     f, out, cap, opts, fill_params = fold_fillcmd(ctx, model)
     w = model.where(ref, f)
     if "raised" in cap:
